@@ -41,6 +41,21 @@ StepVerdicts(e) ==
   ELSE IF ~e.ucons THEN [p |-> "unitscale", t |-> "undecided", why |-> ""]
   ELSE [p |-> PVerdict(e.op, e.meth, e.A, e.B, e.p, e.R), t |-> TVerdict(e.op, e.meth, e.A, e.B, e.p, e.R), why |-> ""]
 
+\* a power with a general exponent, judged in exponent space (Arith "powerx"); R = [bare, ue, dq, sv, lv, si]
+RepQ(t) == \A k \in DOMAIN t : t[k][2] # 0
+StepXVerdicts(e) ==
+  IF ~(Rep(e.A) /\ Small(e.A)) THEN [p |-> "undecided", t |-> "undecided", why |-> "operand"]
+  ELSE IF ~InClaimX(e.A, e.p) THEN [p |-> "outside", t |-> "outside", why |-> "claim"]
+  ELSE IF ~DecidableX(e.A, e.p) THEN [p |-> "undecided", t |-> "undecided", why |-> "exponentspace"]
+  ELSE IF ~e.ucons THEN [p |-> "unitscale", t |-> "undecided", why |-> ""]
+  ELSE [p |-> PVerdictX(e.A, e.p, e.R), t |-> TVerdictX(e.A, e.p, e.R), why |-> ""]
+\* product machine in exponent space: the same SI magnitudes and the same dimension in both runs
+ReexXVerdict(e) ==
+  IF e.A.dq # e.B.dq THEN "dim"
+  ELSE IF Len(e.A.si) # Len(e.B.si) THEN "value"
+  ELSE IF ~(\A k \in DOMAIN e.A.si : RepQ(e.A.si[k]) /\ RepQ(e.B.si[k])) THEN "undecided"
+  ELSE IF e.A.si = e.B.si THEN "ok" ELSE "value"
+
 \* product machine: register of run A and of run B are the same quantity
 ReexVerdict(e) ==
   IF e.A.k # e.B.k THEN "kind"
@@ -59,6 +74,10 @@ Judge ==
       LET sv == StepVerdicts(e) IN
       IF sv.p = "ok" /\ sv.t = "ok" THEN TRUE
       ELSE PrintT(ToJson([tag |-> "V", idx |-> i, p |-> sv.p, t |-> sv.t, why |-> sv.why]))
-    ELSE LET rv == ReexVerdict(e) IN
+    ELSE IF e.kind = "stepx" THEN
+      LET sv == StepXVerdicts(e) IN
+      IF sv.p = "ok" /\ sv.t = "ok" THEN TRUE
+      ELSE PrintT(ToJson([tag |-> "V", idx |-> i, p |-> sv.p, t |-> sv.t, why |-> sv.why]))
+    ELSE LET rv == IF e.kind = "reexx" THEN ReexXVerdict(e) ELSE ReexVerdict(e) IN
          IF rv = "ok" THEN TRUE ELSE PrintT(ToJson([tag |-> "X", idx |-> i, r |-> rv]))
 =============================================================================
